@@ -38,8 +38,17 @@ fn view(w: &Wallet) -> Result<View, libwallet::Error> {
 	let mut entries: Vec<PTx> = w.all_txs()?.iter().map(ptx).collect();
 	entries.sort();
 	let mut infos = vec![];
-	for mc in [0u64, 1, 3, 10].iter() {
-		infos.push(info_tuple(&w.info(false, *mc)?.1));
+	// balance figures of every account (reading them means switching the active account and back)
+	let active = w.active_account()?;
+	let accts = w.accounts()?;
+	for a in accts.iter() {
+		w.set_account(&a.label)?;
+		for mc in [0u64, 1, 3, 10].iter() {
+			infos.push(info_tuple(&w.info(false, *mc)?.1));
+		}
+	}
+	if let Some(a) = accts.iter().find(|a| a.path == active) {
+		w.set_account(&a.label)?;
 	}
 	Ok(View { outs, entries, infos })
 }
@@ -89,6 +98,18 @@ const KINDS: [Kind; 10] = [Kind::SentLocked, Kind::SentReceivedByPeer, Kind::Sen
 
 fn fund(w: &mut World) {
 	for i in 0..2 {
+		// the second account needs coins of its own for the cross-account cases
+		let _ = w.wallets[i].set_account("acct1");
+		let mut g2 = 0;
+		while w.wallets[i].info(true, 1).map(|x| x.1.amount_currently_spendable).unwrap_or(0) < 100_000_000_000 && g2 < 8 {
+			let _ = w.mine(Some(i), true);
+			g2 += 1;
+		}
+		if g2 > 0 {
+			let _ = w.mine_n(None, 3);
+			let _ = w.wallets[i].refresh();
+		}
+		let _ = w.wallets[i].set_account("default");
 		let mut guard = 0;
 		// enough spendable funds in enough separate outputs for several concurrent reservations
 		while (w.wallets[i].info(true, 1).map(|x| x.1.amount_currently_spendable).unwrap_or(0) < 150_000_000_000
@@ -104,18 +125,22 @@ fn fund(w: &mut World) {
 
 fn cleanup(w: &mut World) {
 	for i in 0..2 {
-		if let Ok(txs) = w.wallets[i].all_txs() {
-			for t in txs {
-				if !t.confirmed && (t.tx_type == TxLogEntryType::TxSent || t.tx_type == TxLogEntryType::TxReceived) {
-					let _ = w.wallets[i].cancel(Some(t.id), None);
+		for acct in w.wallets[i].accounts().unwrap_or_default() {
+			let _ = w.wallets[i].set_account(&acct.label);
+			if let Ok(txs) = w.wallets[i].all_txs() {
+				for t in txs {
+					if t.parent_key_id == acct.path && !t.confirmed && (t.tx_type == TxLogEntryType::TxSent || t.tx_type == TxLogEntryType::TxReceived) {
+						let _ = w.wallets[i].cancel(Some(t.id), None);
+					}
 				}
 			}
 		}
+		let _ = w.wallets[i].set_account("default");
 	}
 	w.node.st.lock().pool.clear();
 }
 
-fn one_case(w: &mut World, rep: &mut Report, rng: &mut Rng, kind: Kind, n_other: usize, by_slate_id: bool, change: u32, minconf0: bool) {
+fn one_case(w: &mut World, rep: &mut Report, rng: &mut Rng, kind: Kind, n_other: usize, by_slate_id: bool, change: u32, minconf0: bool, cross: bool) {
 	fund(w);
 	cleanup(w);
 	// which wallet cancels
@@ -138,6 +163,43 @@ fn one_case(w: &mut World, rep: &mut Report, rng: &mut Rng, kind: Kind, n_other:
 		if r.is_err() {
 			rep.count("other-pending-setup-failed");
 		}
+	}
+	// cross-account cases: log ids are allocated per account, so the cancelling wallet gets pending
+	// sends in its *other* account whose log ids cover the id the transaction under test will receive
+	let mut t_account = "default".to_string();
+	if cross {
+		let wal = &w.wallets[me];
+		let accts = wal.accounts().unwrap_or_default();
+		let txs = wal.all_txs().unwrap_or_default();
+		let count = |label: &str| -> usize { accts.iter().find(|a| a.label == label).map(|a| txs.iter().filter(|t| t.parent_key_id == a.path).count()).unwrap_or(0) };
+		let (cd, c1) = (count("default"), count("acct1"));
+		let (x, y, cx, cy) = if cd >= c1 { ("default", "acct1", cd, c1) } else { ("acct1", "default", c1, cd) };
+		let need = cx - cy + 2;
+		if need <= 60 {
+			let _ = wal.set_account(y);
+			let mut made = 0;
+			for i in 0..need {
+				let r = (|| -> Result<(), libwallet::Error> {
+					if i + 3 >= need {
+						// the last ones (whose ids the transaction under test will share) are reserved sends
+						let s = wal.init_send(InitTxArgs { amount: 200_000_000 + rng.below(300_000_000), minimum_confirmations: 1, selection_strategy_is_use_all: false, ..Default::default() })?;
+						wal.lock_outputs(&s)
+					} else {
+						// padding: pending receipts from the peer (an entry and an unconfirmed output each)
+						let s = w.wallets[peer].init_send(InitTxArgs { amount: 100_000_000 + rng.below(100_000_000), minimum_confirmations: 1, selection_strategy_is_use_all: false, ..Default::default() })?;
+						wal.receive(&s, Some(y)).map(|_| ())
+					}
+				})();
+				if r.is_ok() {
+					made += 1;
+				}
+			}
+			rep.count_n("cross-account:pending-entries-created-in-the-other-account", made);
+			t_account = x.to_string();
+		} else {
+			rep.count("cross-account:skipped(id gap too large)");
+		}
+		let _ = wal.set_account(&t_account);
 	}
 	// for minconf-0 cases give `me` an unconfirmed incoming output to spend
 	if minconf0 && me == 0 {
@@ -225,7 +287,7 @@ fn one_case(w: &mut World, rep: &mut Report, rng: &mut Rng, kind: Kind, n_other:
 	let mine: Vec<libwallet::TxLogEntry> = wal.all_txs().unwrap_or_default().into_iter().filter(|t| t.tx_slate_id == Some(id)).collect();
 	// did T reserve an output that was still unconfirmed?
 	let spent_unconfirmed = wal.all_outputs().unwrap_or_default().iter().any(|o| o.status == OutputStatus::Locked && unconf_before.contains(&idstr(&o.key_id)));
-	let case = json!({"job":"c05","kind": format!("{:?}", kind), "other_pending": n_other, "cancel_by": if by_slate_id {"slate id"} else {"log id"}, "change_outputs": change, "minimum_confirmations": mc, "amount": amount.to_string()});
+	let case = json!({"job":"c05","kind": format!("{:?}", kind), "cross_account": cross, "account_under_test": t_account, "other_pending": n_other, "cancel_by": if by_slate_id {"slate id"} else {"log id"}, "change_outputs": change, "minimum_confirmations": mc, "amount": amount.to_string()});
 	// cancel (self-send: two entries share the slate id, so both are cancelled by log id)
 	let mut results = vec![];
 	if kind == Kind::SelfSend || !by_slate_id {
@@ -301,7 +363,14 @@ fn one_case(w: &mut World, rep: &mut Report, rng: &mut Rng, kind: Kind, n_other:
 			rep.violation("C05|refused-cancel-changed-state", "a refused cancel changed wallet state", case.clone());
 		}
 	}
-	rep.distinct(&(format!("{:?}", kind), n_other, by_slate_id, change, minconf0));
+	rep.distinct(&(format!("{:?}", kind), n_other, by_slate_id, change, minconf0, cross));
+	if cross {
+		// did the other account really hold a pending entry with the same log id as the cancelled one?
+		let wal = &w.wallets[me];
+		let all = wal.all_txs().unwrap_or_default();
+		let collide = mine.iter().any(|m| all.iter().any(|t| t.id == m.id && t.parent_key_id != m.parent_key_id && !t.confirmed && (t.tx_type == TxLogEntryType::TxSent || t.tx_type == TxLogEntryType::TxReceived)));
+		rep.count(if collide { "cross-account:log-id-shared-with-a-pending-entry-of-the-other-account" } else { "cross-account:no-id-collision" });
+	}
 	if rep.samples.len() < 4 {
 		rep.sample(case);
 	}
@@ -312,6 +381,9 @@ pub fn run(a: &Args) {
 	let mut rep = Report::new("C05");
 	let mut rng = Rng::new(a.shard_seed() ^ 0xC05);
 	let mut w = World::two(&format!("{}/world", a.work));
+	for i in 0..2 {
+		let _ = w.wallets[i].create_account("acct1");
+	}
 	let _ = w.mine_n(Some(0), 5);
 	let _ = w.mine_n(Some(1), 5);
 	let _ = w.mine_n(None, 3);
@@ -337,7 +409,8 @@ pub fn run(a: &Args) {
 					}
 					let change = if round == 0 { (idx % 4) as u32 } else { rng.below(4) as u32 };
 					let change = if change == 0 && *kind != Kind::SentLocked { 1 } else { change };
-					one_case(&mut w, &mut rep, &mut rng, *kind, n_other, *by_slate, std::cmp::max(change, if *kind == Kind::SentLocked { 0 } else { 1 }), false);
+					// every third case also has pending transactions with the same log ids in the wallet's other account
+					one_case(&mut w, &mut rep, &mut rng, *kind, n_other, *by_slate, std::cmp::max(change, if *kind == Kind::SentLocked { 0 } else { 1 }), false, idx % 3 == 0);
 				}
 			}
 		}
@@ -345,7 +418,7 @@ pub fn run(a: &Args) {
 		for kind in [Kind::SentLocked, Kind::SentFinalized].iter() {
 			idx += 1;
 			if idx % a.nshards == a.shard {
-				one_case(&mut w, &mut rep, &mut rng, *kind, 1, false, 1, true);
+				one_case(&mut w, &mut rep, &mut rng, *kind, 1, false, 1, true, false);
 			}
 		}
 	}
